@@ -27,7 +27,10 @@ SPECS = {
     'SMul3': (['s', 'v3'], ['v3']),  # s * x
     'MkC': (['v2', 'v2'], ['c2']),   # MakeComplex
     'CNorm': (['c2'], ['v2']),       # ComplexNorm
+    'Re': (['c2'], ['v2']),          # RealPart
+    'Im': (['c2'], ['v2']),          # ImagPart
 }
+COMPLEX_SUB = ['MkC', 'CNorm', 'Re', 'Im', 'Sq2']
 USER_ONLY = ['Sq3', 'Sq2', 'L32', 'L23', 'Mul3', 'Mul2', 'Fan3', 'SlIn', 'SlOut', 'SMul3']
 
 
@@ -78,6 +81,12 @@ def forward(name, xs):
         x, y = z[:2], z[2:]
         A = np.sqrt(x * x + y * y)
         return [A], [[np.hstack([np.diag(x / A), np.diag(y / A)])]]
+    if name == 'Re':
+        z = xs[0]
+        return [z[:2]], [[np.hstack([np.eye(2), np.zeros((2, 2))])]]
+    if name == 'Im':
+        z = xs[0]
+        return [z[2:]], [[np.hstack([np.zeros((2, 2)), np.eye(2)])]]
     raise KeyError(name)
 
 
